@@ -70,7 +70,8 @@ inline std::string op_pretty(const Op& o) {
       s << "create e@slot" << o.at(CA_SLOT) << " on m" << o.at(CA_OBJ) << "." << func_name(o.at(CA_FUNC)) << "(";
       s << mk[o.at(CA_M0K) % NMKIND] << (o.at(CA_M0K) >= M_VALUE ? std::to_string(o.at(CA_M0V)) : "");
       if (second_pos(o.at(CA_FUNC)) >= 0) s << (o.at(CA_FUNC) == F_w ? ",..,_11:" : ",") << mk[o.at(CA_M1K) % NMKIND] << (o.at(CA_M1K) >= M_VALUE ? std::to_string(o.at(CA_M1V)) : "");
-      s << ") times[" << o.at(CA_LO) << "," << (o.at(CA_HI) < 0 ? std::string("inf") : std::to_string(o.at(CA_HI))) << "]";
+      auto bt = [](int v) { return v == -1 ? std::string("inf") : v <= -2 ? "2^32+" + std::to_string(-2 - v) : std::to_string(v); };
+      s << ") times[" << bt(o.at(CA_LO) == -1 ? 0 : o.at(CA_LO)) << "," << bt(o.at(CA_HI)) << "]";
       for (int j = 0; j < o.at(CA_NSEQ); ++j) s << " in s" << o.at(CA_SEQ0 + j);
       if (o.at(CA_W0) || o.at(CA_W1)) s << " with(" << o.at(CA_W0) << "," << o.at(CA_W1) << ")";
       if (o.at(CA_X0) || o.at(CA_X1)) s << " fx(" << o.at(CA_X0) << "," << o.at(CA_X1) << ")";
@@ -187,7 +188,9 @@ class Model {
     s.slot = o.at(CA_SLOT); s.obj = o.at(CA_OBJ); s.func = o.at(CA_FUNC); s.term = o.at(CA_TERM);
     s.nseq = o.at(CA_NSEQ); s.seq[0] = o.at(CA_SEQ0); s.seq[1] = o.at(CA_SEQ1);
     s.seq[2] = (0 + 1 + 2) - s.seq[0] - s.seq[1];   // nseq == 3 (NSEQ is 3): the remaining sequence, listed last
-    s.lo = o.at(CA_LO); s.hi = o.at(CA_HI) < 0 ? INF : o.at(CA_HI);
+    // bounds beyond 32 bits are written as -2 - k in the operation and mean 2^32 + k (k = 0, 1)
+    auto wide = [](int v) -> long { return v <= -2 ? (1L << 32) + (-2 - v) : v; };
+    s.lo = wide(o.at(CA_LO)); s.hi = o.at(CA_HI) == -1 ? INF : wide(o.at(CA_HI));
     s.m[0] = MSpec{o.at(CA_M0K), o.at(CA_M0V)}; s.m[1] = MSpec{o.at(CA_M1K), o.at(CA_M1V)};
     s.with[0] = o.at(CA_W0); s.with[1] = o.at(CA_W1);
     s.fx[0] = o.at(CA_X0); s.fx[1] = o.at(CA_X1);
